@@ -216,9 +216,42 @@ fn best_flag(h: &HistA<MinSize>) -> Sx {
     })
 }
 
+/// lazy mode: has the case a `(lazy)` element?
+fn is_lazy(case: &Sx) -> bool {
+    case.as_lst().iter().skip(4).any(|x| matches!(x, Sx::Lst(l) if l.len() == 1 && l[0] == sym("lazy")))
+}
+
+/// "equal classes share one datum", asked FIRST after a history in which nothing was observed: the datum read through every old handle id
+/// (reads only, nothing is canonicalised before all of them are taken) must be the datum read through the class's current leader
+fn share_flag<A: An>(h: &HistA<A>) -> Sx {
+    guard_sx(|| {
+        let raw: Vec<A::Data> = h.handles.iter().map(|a| h.eg.analysis_data(a.id).clone()).collect();
+        let mut bad = vec![sym("stale")];
+        for (i, a) in h.handles.iter().enumerate() {
+            let lead = h.eg.find_applied_id(a).id;
+            let d = h.eg.analysis_data(lead).clone();
+            if d != raw[i] { bad.push(lst(vec![num(i as u64), A::data_sx(&raw[i]), A::data_sx(&d)])); }
+        }
+        if bad.len() == 1 { sym("ok") } else { lst(bad) }
+    })
+}
+
 fn run_with<A: An>(c: &Sx, best: impl FnOnce(&HistA<A>) -> Sx) -> Sx {
     let mut steps = vec![sym("steps")];
     let mut fix = vec![sym("fix")];
+    if is_lazy(c) {
+        // nothing observed between the operations (observation canonicalises and thereby compresses union-find paths)
+        let h = run_history_a::<A>(c, |_, _| {});
+        if let Some((_oi, kind, loc)) = &h.err { steps.push(lst(vec![sym("err"), sym(kind), loc_sx(loc)])); return lst(vec![sym("obs"), lst(steps), lst(fix), lst(vec![sym("best"), sym("na")])]); }
+        let sh = share_flag(&h);
+        // the fixpoint predicate on a SECOND unobserved copy, so that it is the first reader as well
+        let h2 = run_history_a::<A>(c, |_, _| {});
+        let f = fix_flags(&h2.eg);
+        steps.push(step_obs(&h));
+        fix.push(sh); fix.push(f);
+        let b = best(&h);
+        return lst(vec![sym("obs"), lst(steps), lst(fix), lst(vec![sym("best"), b])]);
+    }
     let h = run_history_a::<A>(c, |h, _| { let o = step_obs(h); let f = fix_flags(&h.eg); h.per_op.push((o, f)); });
     for (o, f) in &h.per_op { steps.push(o.clone()); fix.push(f.clone()); }
     if let Some((_oi, kind, loc)) = &h.err { steps.push(lst(vec![sym("err"), sym(kind), loc_sx(loc)])); }
@@ -435,7 +468,9 @@ pub fn gen(a: &Args) -> Vec<String> {
         let (terms, ops, motif) = gen_history14(&mut rng, unsound);
         let mut t = vec![sym("terms")]; t.extend(terms);
         let mut o = vec![sym("ops")]; o.extend(ops);
-        cases.push(lst(vec![sym("eg14"), flags(), lst(t), lst(o), sym(&motif), lst(vec![sym("an"), num(k)])]).to_string());
+        let mut cv = vec![sym("eg14"), flags(), lst(t), lst(o), sym(&motif), lst(vec![sym("an"), num(k)])];
+        if a.extra.iter().any(|x| x == "lazy") { cv.push(lst(vec![sym("lazy")])); }
+        cases.push(lst(cv).to_string());
     }
     cases
 }
